@@ -9,6 +9,7 @@ Apply(op, a) ==
       [] op = "mul"  -> FMul(a[1], a[2])  [] op = "div" -> FDiv(a[1], a[2])
       [] op = "neg"  -> FNeg(a[1])        [] op = "abs" -> FAbs(a[1])
       [] op = "sqrt" -> FSqrt(a[1])       [] op = "cbrt" -> FCbrt(a[1])
+      [] op = "expm1" -> FExpm1(a[1])     [] op = "log1p" -> FLog1p(a[1])
       [] op = "exp"  -> FExp(a[1])        [] op = "ln"  -> FLn(a[1])
       [] op = "log10" -> FLog10(a[1])     [] op = "pow" -> FPow(a[1], a[2])
       [] op = "sin"  -> FSin(a[1])        [] op = "cos" -> FCos(a[1])
